@@ -4,7 +4,7 @@
             BlockReader made of the implementation's final file (evaluated by the harness)
    output = (openresult (stepobs ...) finalfile), stepobs = (out changed nidx),
             nidx = number of records in the store's insertion index after the step.
-   The steps are RunStore.step (the functions of Store.v).  For the blockstore (kind 0) the verif
+   The steps are Fault.fstep (the functions of Store.v, the ones the theorems are about).  For the blockstore (kind 0) the verif
    hook reaches the data writer only: Finalize writes through the *os.File, so the script is
    cleared when a finalize operation starts (theorems cover scripts with faults there too). *)
 From Coq Require Import Strings.String.
@@ -13,41 +13,6 @@ From GoCar Require Import Bytes Varint Cid Header Frame V2Header Index Store Val
 Definition clear_faults (s : wstate) : wstate :=
   set_dev s (mkdev (d_file (ws_dev s)) (d_log (ws_dev s)) []) (ws_pos s).
 
-Definition is_finalize_op (op : val) : bool := tag_is op "finalize" || tag_is op "finalizero".
-
-Section Run.
-  Variable hdrdec : bytes -> option (list bytes * N).
-
-  Fixpoint fsteps (kn : N) (s : wstate) (ops : list val) (acc : list val) : list val * bytes :=
-    match ops with
-    | [] => (rev acc, ws_file s)
-    | op :: t =>
-      let s0 := if (kn =? 0) && is_finalize_op op then clear_faults s else s in
-      match step hdrdec kn s0 op with
-      | (inl s', o) =>
-          let changed := negb (bytes_eqb (ws_file s) (ws_file s')) in
-          fsteps kn s' t (VL [v_out o; v_of_bool changed; VN (N.of_nat (length (ws_idx s')))] :: acc)
-      | (inr (e, dv), o) =>
-          let changed := negb (bytes_eqb (ws_file s) (d_file dv)) in
-          (rev (VL [v_out o; v_of_bool changed; VN 0] :: acc), d_file dv)
-      end
-    end.
-
-  Definition run_fault_with (input : val) : val :=
-    let kn := vN (vnth 0 input) in
-    let o := v_wopts (vnth 1 input) in
-    let roots := vcids (vnth 2 input) in
-    match open_new (v_kind kn) o (is_nil_tag (vnth 2 input)) roots (v_faults (vnth 3 input)) with
-    | Err e => VL [VL [VT "err"; v_err e]; VL []; VB []]
-    | Ok s =>
-      let '(obs, file) := fsteps kn s (vL (vnth 4 input)) [] in
-      VL [VL [VT "nil"]; VL obs; VB file]
-    end.
-End Run.
-
-Definition run_fault (input : val) : val := run_fault_with (hdr_lookup (vL (vnth 5 input))) input.
-
-(* ---- the predicate on what the implementation did ---------------------------------------------- *)
 Definition v_fop (op : val) : option fop :=
   let c := vB (vnth 1 op) in
   if tag_is op "put" then Some (FPut c (vB (vnth 2 op)))
@@ -63,6 +28,39 @@ Definition v_fop (op : val) : option fop :=
   else if tag_is op "discard" then Some FDiscard
   else None.
 
+Section Run.
+  Variable hdrdec : bytes -> option (list bytes * N).
+
+  (* the steps are Fault.fstep -- the function the C16 theorems are about *)
+  Fixpoint fsteps (kn : N) (s : wstate) (ops : list val) (acc : list val) : list val * bytes :=
+    match ops with
+    | [] => (rev acc, ws_file s)
+    | opv :: t =>
+      match v_fop opv with
+      | None => (rev (VL [v_out (OErr EOracleMiss); VN 0; VN 0] :: acc), ws_file s)
+      | Some op =>
+        let s0 := if (kn =? 0) && is_finalize op then clear_faults s else s in
+        let '(s', o) := fstep hdrdec kn s0 op in
+        let changed := negb (bytes_eqb (ws_file s) (ws_file s')) in
+        fsteps kn s' t (VL [v_out o; v_of_bool changed; VN (N.of_nat (length (ws_idx s')))] :: acc)
+      end
+    end.
+
+  Definition run_fault_with (input : val) : val :=
+    let kn := vN (vnth 0 input) in
+    let o := v_wopts (vnth 1 input) in
+    let roots := vcids (vnth 2 input) in
+    match open_new (kind_of kn) o (is_nil_tag (vnth 2 input)) roots (v_faults (vnth 3 input)) with
+    | Err e => VL [VL [VT "err"; v_err e]; VL []; VB []]
+    | Ok s =>
+      let '(obs, file) := fsteps kn s (vL (vnth 4 input)) [] in
+      VL [VL [VT "nil"]; VL obs; VB file]
+    end.
+End Run.
+
+Definition run_fault (input : val) : val := run_fault_with (hdr_lookup (vL (vnth 5 input))) input.
+
+(* ---- the predicate on what the implementation did ---------------------------------------------- *)
 (* the result of a step as the harness printed it *)
 Definition obs_out (v : val) : out :=
   let r := vnth 0 v in
